@@ -213,6 +213,9 @@ func (g *Graph) Succ(n Node) []Node {
 		}
 		return out
 	case *ssa.Return:
+		if out, ok := g.correlatedReturn(f, x); ok {
+			return out
+		}
 		return g.ret(f)
 	case *ssa.Panic:
 		return nil
@@ -466,3 +469,96 @@ func isErrorType(t types.Type) bool { return types.Identical(t, errType) }
 
 // IsErrorType is exported.
 func IsErrorType(t types.Type) bool { return isErrorType(t) }
+
+// errOutcome classifies the error operand of a return: +1 definitely non-nil, -1 definitely nil, 0 unknown.
+func errOutcome(ret *ssa.Return) int {
+	fn := ret.Parent()
+	res := fn.Signature.Results()
+	if res.Len() == 0 || !isErrorType(res.At(res.Len()-1).Type()) {
+		return 0
+	}
+	v := ir.ReturnOperand(ret, res.Len()-1)
+	if v == nil {
+		return 0
+	}
+	if isNilConst(v) {
+		return -1
+	}
+	if c, ok := v.(*ssa.Call); ok {
+		if f := c.Common().StaticCallee(); f != nil && f.Pkg != nil {
+			if p := f.Pkg.Pkg.Path(); (p == "fmt" && f.Name() == "Errorf") || (p == "errors" && f.Name() == "New") {
+				return +1
+			}
+		}
+	}
+	if mi, ok := v.(*ssa.MakeInterface); ok {
+		_ = mi
+		return +1
+	}
+	src := errSource(v)
+	if src == nil {
+		return 0
+	}
+	// a dominating test of the same error value
+	for d := ret.Block(); d != nil && d.Idom() != nil; d = d.Idom() {
+		id := d.Idom()
+		iff, ok := id.Instrs[len(id.Instrs)-1].(*ssa.If)
+		if !ok {
+			continue
+		}
+		for idx, sb := range id.Succs {
+			if (sb == d || sb.Dominates(d)) && len(sb.Preds) == 1 {
+				if call, nonNil, ok := ErrEdge(iff, idx); ok && call == src {
+					if nonNil {
+						return +1
+					}
+					return -1
+				}
+			}
+		}
+	}
+	return 0
+}
+
+// correlatedReturn: when an inlined callee returns an error that is definitely nil (or
+// definitely non-nil) and the caller tests that error right after the call (only pure
+// instructions in between), the return continues on the matching edge of that test
+// instead of on both: `if err := helper(); err != nil { return err }` then behaves like
+// the helper's body written in place.
+func (g *Graph) correlatedReturn(f *Frame, ret *ssa.Return) ([]Node, bool) {
+	if f.Parent == nil || f.RD != nil {
+		return nil, false
+	}
+	site, ok := f.Site.(*ssa.Call)
+	if !ok {
+		return nil, false
+	}
+	oc := errOutcome(ret)
+	if oc == 0 {
+		return nil, false
+	}
+	b := site.Block()
+	for i := ir.InstrIndex(site) + 1; i < len(b.Instrs); i++ {
+		switch x := b.Instrs[i].(type) {
+		case *ssa.Extract, *ssa.BinOp, *ssa.UnOp, *ssa.DebugRef:
+			continue
+		case *ssa.If:
+			for idx := range b.Succs {
+				call, nonNil, ok := ErrEdge(x, idx)
+				if !ok || call != site {
+					return nil, false
+				}
+				if nonNil == (oc > 0) {
+					if g.PruneEdge != nil && g.PruneEdge(f.Parent, x, idx) {
+						return nil, true
+					}
+					return []Node{g.first(f.Parent, b.Succs[idx])}, true
+				}
+			}
+			return nil, false
+		default:
+			return nil, false
+		}
+	}
+	return nil, false
+}
